@@ -705,12 +705,14 @@ fn obs_options(res: &std::result::Result<SearchResult, String>, dict: &mut Dict)
   }
 }
 
+const UNI_WORDS: [&str; 6] = ["vi\u{1ec7}t", "\u{65e5}\u{672c}\u{8a9e}", "na\u{ef}ve", "gr\u{fc}\u{df}e", "\u{1f600}go", "\u{451}\u{43b}\u{43a}\u{430}"];
+
 fn gen_suggest(r: &mut StdRng, cx: &Ctx) -> SuggestA {
   let field = pick(r, &["body", "body", "title", "tag", "cat"]).to_string();
   let base: String = match field.as_str() {
     "tag" => pick(r, &KW_TAGS).to_string(),
     "cat" => pick(r, &KW_CATS).to_string(),
-    _ => if chance(r, 1, 5) { xword(r) } else { corpus_word(r, cx) },
+    _ => if chance(r, 1, 5) { xword(r) } else if chance(r, 1, 4) { pick(r, &UNI_WORDS).to_string() } else { corpus_word(r, cx) },
   };
   let chars: Vec<char> = base.chars().collect();
   let fuzzy = if chance(r, 1, 2) {
@@ -778,7 +780,20 @@ fn mode_suggest(r: &mut StdRng, scn0: usize, n_req: usize, out: &mut Vec<Value>)
   let schema = make_schema(r, &knobs);
   let n_docs = r.gen_range(6..=28);
   let vocab = r.gen_range(4..=WORDS.len());
-  let docs: Vec<Value> = (0..n_docs).map(|i| make_doc(r, &knobs, &format!("d{i:02}"), i as u64 + 1, vocab)).collect();
+  let mut docs: Vec<Value> = (0..n_docs).map(|i| make_doc(r, &knobs, &format!("d{i:02}"), i as u64 + 1, vocab)).collect();
+  // terms with 2-, 3- and 4-byte characters: edit distance and prefix length count characters
+  for d in docs.iter_mut() {
+    if chance(r, 1, 3) {
+      for f in ["body", "title"] {
+        if let Some(Value::String(t)) = d.get_mut(f) {
+          t.push(' ');
+          let w: &str = *pick(r, &UNI_WORDS);
+          t.push_str(w);
+          break;
+        }
+      }
+    }
+  }
   let n_layouts = r.gen_range(2..=3);
   let mut requests: Vec<SuggestA> = Vec::new();
   let mut firsts: Vec<Value> = Vec::new();
